@@ -168,6 +168,7 @@ package smparser
 //@   ensures result_recorded: unmarshalled(m) <==> err == nil
 //@   ensures cer_shape: err == nil && typeis(dst, *CER) ==> cerwf(dst.(*CER))
 //@   ensures cer_origin_state: typeis(dst, *CER) ==> ostateok(dst.(*CER))
+//@   ensures cea_shape: err == nil && typeis(dst, *CEA) ==> listok(dst.(*CEA).AcctApplicationID) && listok(dst.(*CEA).AuthApplicationID) && groupsok(dst.(*CEA).VendorSpecificApplicationID)
 //@   ensures own_errors: err != ErrNoCommonSecurity && err != ErrNoCommonApplication && err != ErrMissingApplication
 //@ end
 //@
@@ -208,4 +209,65 @@ package smparser
 //@   pure
 //@   requires cer != nil
 //@   ensures same: sameslice(r, cer.appID) && cap(r) == cap(cer.appID)
+//@ end
+//@
+//@ # ======================= CEA (client side, C12) ===============================
+//@ ghost ceaverdict(*diam.Message) error
+//@ ghost ceaof(*diam.Message) *smparser.CEA
+//@ spec commoncea(cea *CEA, d *dict.Parser) bool = anyacc(cea.AcctApplicationID, len(cea.AcctApplicationID), 259, d) ||
+//@      anyacc(cea.AuthApplicationID, len(cea.AuthApplicationID), 258, d) || anygroup(cea.VendorSpecificApplicationID, len(cea.VendorSpecificApplicationID), d)
+//@ func (*CEA).sanityCheck(cea) (err)
+//@   property C12
+//@   pure
+//@   requires cea != nil
+//@   ensures [C12] complete_iff: err == nil <==> cea.ResultCode != 0 && len(cea.OriginHost) != 0 && len(cea.OriginRealm) != 0
+//@ end
+//@
+//@ func (*CEA).Parse(cea, m, localRole) (err)
+//@   property C12
+//@   requires cea != nil && m != nil && (m.dictionary != nil ==> pwf(m.dictionary))
+//@   modifies cea.*, unmarshalled(m), ceaverdict(m), ceaof(m), fresh
+//@   ghostset ceaverdict(m) = err
+//@   ghostset ceaof(m) = cea
+//@   ensures verdict_noted: ceaverdict(m) == err && ceaof(m) == cea
+//@   posthint idsok.def(dictof(m), cea.appID)
+//@   ensures [C12] accepted_exactly_when: err == nil <==> unmarshalled(m) && cea.ResultCode == 2001 && len(cea.OriginHost) != 0 && len(cea.OriginRealm) != 0 && commoncea(cea, dictof(m))
+//@   ensures [C12] shared_ids_recorded: err == nil ==> len(cea.appID) > 0 && (forall k int :: 0 <= k && k < len(cea.appID) ==> relayorshared(dictof(m), cea.appID[k]))
+//@   ensures [C12] failed_result_code_is_reported_as_such: unmarshalled(m) && cea.ResultCode != 0 && cea.ResultCode != 2001 && len(cea.OriginHost) != 0 && len(cea.OriginRealm) != 0 ==> typeis(err, *ErrFailedResultCode)
+//@ end
+//@
+//@ func (*CEA).Applications(cea) (r)
+//@   property C12
+//@   pure
+//@   requires cea != nil
+//@   ensures same: sameslice(r, cea.appID) && cap(r) == cap(cea.appID)
+//@ end
+//@
+//@ # ======================= DWR / DWA (C13) ======================================
+//@ ghost dwrverdict(*diam.Message) error
+//@ func (*DWR).sanityCheck(dwr) (err)
+//@   property C13
+//@   pure
+//@   requires dwr != nil
+//@   ensures [C13] named_iff: err == nil <==> len(dwr.OriginHost) != 0 && len(dwr.OriginRealm) != 0
+//@ end
+//@ func (*DWR).Parse(dwr, m) (err)
+//@   property C13
+//@   requires dwr != nil && m != nil
+//@   modifies dwr.*, unmarshalled(m), dwrverdict(m), fresh
+//@   ghostset dwrverdict(m) = err
+//@   ensures verdict_noted: dwrverdict(m) == err
+//@   ensures [C13] well_formed_is_accepted: unmarshalled(m) && len(dwr.OriginHost) != 0 && len(dwr.OriginRealm) != 0 ==> err == nil
+//@   ensures [C13] rejected_only_for_missing_identity: err != nil ==> unmarshalled(m) && (len(dwr.OriginHost) == 0 || len(dwr.OriginRealm) == 0)
+//@ end
+//@ ghost dwaverdict(*diam.Message) error
+//@ ghost dwaof(*diam.Message) *smparser.DWA
+//@ func (*DWA).Parse(dwa, m) (err)
+//@   property C13
+//@   requires dwa != nil && m != nil
+//@   modifies dwa.*, unmarshalled(m), dwaverdict(m), dwaof(m), fresh
+//@   ghostset dwaverdict(m) = err
+//@   ghostset dwaof(m) = dwa
+//@   ensures verdict_noted: dwaverdict(m) == err && dwaof(m) == dwa
+//@   ensures [C13] parsed_iff_unmarshalled: err == nil <==> unmarshalled(m)
 //@ end
